@@ -1,5 +1,5 @@
 #!/venv/bin/python
-"""Applies every behaviour-preserving refactoring in /verif/refactors to /repo (working tree only), runs all quick checks
+"""Applies every behaviour-preserving refactoring in /verif/refactors to a scratch working tree of /repo's HEAD, runs all quick checks against it
 (all must stay silent: exit 0), restores the tree, writes refactors/RESULTS.md.  Developer tool — not a registered check."""
 import os, re, subprocess, sys
 from concurrent.futures import ThreadPoolExecutor
@@ -7,30 +7,63 @@ V = os.path.dirname(os.path.dirname(os.path.abspath(__file__)))
 PROPS = [f"C{i:02d}" for i in range(1, 20)]
 def sh(cmd):
     return subprocess.run(cmd, shell=True, capture_output=True, text=True)
+def par_map(fn, items):
+    """Run fn(item, worktree) over the items on N scratch worktrees of /repo's HEAD (default 4; -jN), each check pointed at its worktree
+    through VERIF_REPO; the worktrees live under /tmp and are removed at the end.  /repo itself is not touched."""
+    import queue, threading
+    jobs = next((int(a[2:]) for a in sys.argv[1:] if a.startswith("-j")), 4)
+    jobs = max(1, min(jobs, len(items)))
+    q = queue.Queue()
+    for i, it in enumerate(items):
+        q.put((i, it))
+    out = [None] * len(items)
+    wts = [f"/tmp/vp-par-{os.getpid()}-{k}" for k in range(jobs)]
+    for wt in wts:
+        sh(f"git -C /repo worktree add -q --detach {wt} HEAD")
+    def worker(wt):
+        while True:
+            try:
+                i, it = q.get_nowait()
+            except queue.Empty:
+                return
+            try:
+                out[i] = fn(it, wt)
+            except Exception as e:
+                print(it, "RUNNER ERROR", e, flush=True)
+    try:
+        ts = [threading.Thread(target=worker, args=(wt,)) for wt in wts]
+        [t.start() for t in ts]
+        [t.join() for t in ts]
+    finally:
+        for wt in wts:
+            sh(f"git -C /repo worktree remove --force {wt}")
+        sh("git -C /repo worktree prune")
+    return [o for o in out if o is not None]
 def main():
     rs = sorted(d for d in os.listdir(f"{V}/refactors") if os.path.isfile(f"{V}/refactors/{d}/patch.diff"))
-    if len(sys.argv) > 1:
-        rs = [r for r in rs if any(r.startswith(a) for a in sys.argv[1:])]
+    args = [a for a in sys.argv[1:] if not a.startswith('-j')]
+    if args:
+        rs = [r for r in rs if any(r.startswith(a) for a in args)]
     if sh("git -C /repo diff --quiet").returncode != 0:
         print("/repo dirty"); return 2
-    rows = []
-    for r in rs:
-        a = sh(f"git -C /repo apply {V}/refactors/{r}/patch.diff")
+    def one(r, wt):
+        a = sh(f"git -C {wt} apply {V}/refactors/{r}/patch.diff")
         if a.returncode != 0:
-            rows.append((r, "PATCH DOES NOT APPLY", "")); print(r, "does not apply"); continue
+            print(r, "does not apply"); return (r, "PATCH DOES NOT APPLY", "")
         def run(c):
-            o = sh(f"cd {V} && ./check {c} quick")
+            o = sh(f"cd {V} && VERIF_REPO={wt} ./check {c} quick")
             return c, o.returncode, [l for l in o.stdout.splitlines() if l.startswith(("ANALYSIS-ERROR", "  C"))]
-        with ThreadPoolExecutor(8) as ex:
+        with ThreadPoolExecutor(5) as ex:
             res = list(ex.map(run, PROPS))
-        sh("git -C /repo checkout -- .")
+        sh(f"git -C {wt} checkout -- . && git -C {wt} clean -fdq")
         bad = [(c, rc, lines) for c, rc, lines in res if rc != 0]
-        rows.append((r, "silent" if not bad else "ALARM", "; ".join(f"{c} exit {rc}: {(lines[0] if lines else '')[:160]}" for c, rc, lines in bad)))
-        print(r, "silent" if not bad else f"ALARM {[(c, rc) for c, rc, _ in bad]}")
+        print(r, "silent" if not bad else f"ALARM {[(c, rc) for c, rc, _ in bad]}", flush=True)
         for c, rc, lines in bad:
             for l in lines[:3]:
-                print("     ", l[:220])
-    if len(sys.argv) > 1:
+                print("     ", l[:220], flush=True)
+        return (r, "silent" if not bad else "ALARM", "; ".join(f"{c} exit {rc}: {(lines[0] if lines else '')[:160]}" for c, rc, lines in bad))
+    rows = par_map(one, rs)
+    if args:
         return 0
     with open(f"{V}/refactors/RESULTS.md", "w") as f:
         f.write("# Behaviour-preserving refactorings vs. checks (quick tier; every check must stay silent)\n\n| refactoring | verdict | detail |\n|---|---|---|\n")
